@@ -402,7 +402,7 @@ fn cli_case() -> BoxedStrategy<CliCase> {
 				// a country string with exactly one character outside the PrintableString alphabet, at any position
 				2 => ("[A-Za-z0-9 ]{0,3}", prop_oneof![
 						4 => (0x21u8..0x7f).prop_filter_map("printable", |b| if StrKind::Printable.admits(b as char) { None } else { Some(b as char) }),
-						1 => prop::sample::select(vec!['Ä', 'é', '\u{7f}', '\u{1}', '中', '\u{80}']),
+						1 => prop::sample::select(vec!['Ä', 'é', '\u{7f}', '\u{1}', '中', '\u{80}', 'ß', 'ſ', 'ı', 'ﬀ', 'ﬆ', 'İ', 'ǰ', 'ΐ', '\u{212a}', '\u{ff21}']),
 					], "[A-Za-z0-9 ]{0,3}").prop_map(|(a, c, b)| {
 						let s = format!("{a}{c}{b}");
 						Some(Invalid::NonPrintableCountry(if s.starts_with('-') { format!("A{s}") } else { s }))
